@@ -1,6 +1,6 @@
 """C04 — scalar values survive their text and numeric wire forms exactly.
 
-Part 1 (pure integer arithmetic, exact): serdes._duration_isoformat on every timedelta
+Part 1 (pure integer arithmetic, exact): serdes.isoformat (through its duration helper) on every timedelta
 (days, seconds, microseconds) in the full range: the emitted text, kept as a token sequence,
 is accepted by an independent ISO-8601 duration reader and denotes exactly
 days*86400e6 + seconds*1e6 + microseconds.
@@ -186,8 +186,11 @@ KNOWN_ZERO = "zero-duration"   # timedelta(0) -> 'PT' (pinned by the repository'
 
 
 def writer_obligations(chk):
+    """The duration-writer proof is stated on the public `serdes.isoformat` applied to a timedelta: whatever helper it
+    delegates to (today `_duration_isoformat`, memoised, recursive for negatives) is inlined from the current source, so
+    renaming or restructuring that helper needs no contract change - only what `isoformat` emits matters."""
     I = writer_interp()
-    func = f"{SER}._duration_isoformat"
+    func = f"{SER}.isoformat"
 
     def mk(I, path):
         d, s, u = path.fresh("days", IntS), path.fresh("seconds", IntS), path.fresh("micros", IntS)
